@@ -279,6 +279,10 @@ def run(ctx):
         from harness.common import run_demo
         run_demo(ctx, 'demo_tr3.py', [1 + ctx.seed], 'c14-code-vs-generated-vs-model',
                  'EM responsibilities handed to em_step vs generated expression vs backward model', env_extra=dict(DEMO_SECTIONS='g'))
+        if ctx.n_new() == 0:
+            run_demo(ctx, 'demo_embackward.py', ['--n', 40 if ctx.tier == 'quick' else 300], 'c14-backward-pass-as-coded',
+                     'eval_backward / EM statistics on circuits with zero-valued children (Bernoulli p in {0, 1}, zero weights) vs exact '
+                     'derivatives and vs the coded pass of Model/EmBackward.lean', env_extra=dict(VERIF_SEED=str(ctx.seed)))
 
 
 def replay(rep):
